@@ -64,14 +64,14 @@ DESIGN = {
     "C05": [("flow.cfg", "all"), ("sched.cfg", 250)],
     "C06": [("retry.cfg", "all"), ("retry_nocup.cfg", "all")],
     "C07": [("retry.cfg", "all"), ("reports.cfg", "all"), ("sched.cfg", 150), ("history.cfg", 200)],
-    "C08": [("retry_nocup.cfg", "all"), ("sched.cfg", 250), ("history.cfg", 400)],
+    "C08": [("retry_nocup.cfg", "all"), ("sched.cfg", 250), ("history.cfg", 400), ("clock.cfg", 200)],
     "C09": [("flow.cfg", "all"), ("sched.cfg", 250), ("history.cfg", 400)],
     "C10": [("flow.cfg", "all"), ("reports.cfg", "all")],
     "C11": [("sched.cfg", 400), ("history.cfg", 200), ("sched_inv.cfg", "inv"), ("live_sched.cfg", "live")],
     "C12": [("sched.cfg", 400), ("sched_inv.cfg", "inv")],
     "C13": [("sched.cfg", 250), ("flow.cfg", "all"), ("live_sched.cfg", "live")],
-    "C14": [("flow.cfg", "all"), ("sfail.cfg", "all"), ("live_retry.cfg", "live"), ("live_sched.cfg", "live")],
-    "C18": [("flow.cfg", "all"), ("sched.cfg", 250), ("history.cfg", 400)],
+    "C14": [("flow.cfg", "all"), ("sfail.cfg", "all"), ("clock.cfg", 500), ("live_retry.cfg", "live"), ("live_sched.cfg", "live")],
+    "C18": [("flow.cfg", "all"), ("sched.cfg", 250), ("history.cfg", 400), ("clock.cfg", 300)],
 }
 # (history_inv: 10.1 million distinct states, ~17 min on 8 workers: a crash at every operation of every behaviour, twice)
 THOROUGH_INV = {"C04": ["sched_inv.cfg"], "C05": ["sched_inv.cfg"], "C07": ["sched_inv.cfg"],
